@@ -56,8 +56,18 @@ class Rig:
 
     def spi_args(self, radio, flavour="pin"):
         """(spi, csn, ce) triple for a driver constructor"""
-        ce = ce_pin(radio)
+        # one physical chip = one CE pin, one CSN pin and one bus, shared by every driver
+        # object constructed on it
+        cache = radio.__dict__.setdefault("_hal_cache", {})
+        if flavour in cache:
+            return cache[flavour]
+        ce = getattr(radio, "ce_pin_obj", None) or ce_pin(radio)
         radio.ce_pin_obj = ce
+        cache[flavour] = self._spi_args(radio, flavour, ce)
+        return cache[flavour]
+
+    @staticmethod
+    def _spi_args(radio, flavour, ce):
         if flavour == "pin":
             csn = SimPin(radio.name + ".CSN", True)
             spi = SimSpiDev(cs_pins=[(csn, radio)])
